@@ -301,6 +301,37 @@ def py_handlers(func):
     return out
 
 
+def lookup_signatures(rep, u, amod, rule):
+    """every C lookup entry point (LookupBase and VerifyingBase tables) takes
+    the parameters of its Python twin: names, order, number of optional ones"""
+    lb = find_def(amod, 'LookupBase')
+    vb = find_def(amod, 'VerifyingBase')
+    lms = methods_of(lb)
+    for table, prefix in (('LB_methods', 'LookupBase'), ('VB_methods', 'VerifyingBase')):
+        for pyname, cfn, flags in u.method_table(table):
+            pf = lms.get(pyname)
+            if pyname in methods_of(vb) and prefix == 'VerifyingBase':
+                pf = methods_of(vb)[pyname]
+            if pf is None:
+                ccheck(rep, rule, cfn, False,
+                       'C entry %s.%s has no Python twin' % (prefix, pyname),
+                       construct='signature')
+                continue
+            pn, pd = py_signature(pf)
+            if flags.strip() == '8':          # METH_O
+                ok = len(pn) == 1
+                ccheck(rep, rule, cfn, ok,
+                       '%s.%s: METH_O vs Python parameters %s' % (prefix, pyname, pn),
+                       construct='signature')
+                continue
+            cs = c_signature(u, cfn)
+            ok = cs is not None and cs[0] == pn and cs[1] == pd
+            ccheck(rep, rule, cfn, ok,
+                   '%s.%s: C keywords %s (%s optional, format %s) vs Python %s '
+                   '(%d optional)' % (prefix, pyname, cs and cs[0], cs and cs[1],
+                                      cs and cs[2], pn, pd), construct='signature')
+
+
 def run(rep):
     repo = rep.repo
     amod = repo.module('adapter.py')
@@ -348,32 +379,10 @@ def run(rep):
                 'execution; only the structural core is decided)')
 
     # ---- F1 -----------------------------------------------------------------------
+    lookup_signatures(rep, u, amod, 'F1')
     lb = find_def(amod, 'LookupBase')
     vb = find_def(amod, 'VerifyingBase')
     lms = methods_of(lb)
-    for table, prefix in (('LB_methods', 'LookupBase'), ('VB_methods', 'VerifyingBase')):
-        for pyname, cfn, flags in u.method_table(table):
-            pf = lms.get(pyname)
-            if pyname in methods_of(vb) and prefix == 'VerifyingBase':
-                pf = methods_of(vb)[pyname]
-            if pf is None:
-                ccheck(rep, 'F1', cfn, False,
-                       'C entry %s.%s has no Python twin' % (prefix, pyname),
-                       construct='signature')
-                continue
-            pn, pd = py_signature(pf)
-            if flags.strip() == '8':          # METH_O
-                ok = len(pn) == 1
-                ccheck(rep, 'F1', cfn, ok,
-                       '%s.%s: METH_O vs Python parameters %s' % (prefix, pyname, pn),
-                       construct='signature')
-                continue
-            cs = c_signature(u, cfn)
-            ok = cs is not None and cs[0] == pn and cs[1] == pd
-            ccheck(rep, 'F1', cfn, ok,
-                   '%s.%s: C keywords %s (%s optional, format %s) vs Python %s '
-                   '(%d optional)' % (prefix, pyname, cs and cs[0], cs and cs[1],
-                                      cs and cs[2], pn, pd), construct='signature')
     ib = find_def(imod, 'InterfaceBase')
     cs = c_signature(u, 'IB__init__')
     pn, pd = py_signature(methods_of(ib)['__init__'])
